@@ -71,7 +71,10 @@ def run(ck):
                 continue
             ck.count(1, 'corr:' + d['kind'] + (':raises' if 'raises' in d else ''))
             ck.nontrivial(('corr', c[:160]))
-            o = vc.oracle(d, got)
+            try:
+                o = vc.oracle(d, got)
+            except Exception as e:      # an implementation result of an unexpected form is a failure of that case, not of the harness
+                o = f'result {got!r} of unexpected form ({type(e).__name__}: {e})'
             if o:
                 fails.append(('helper:' + d['kind'], 'VerilogTransformer helper: ' + o, {'component': 'verilog.VerilogTransformer', 'input': d, 'actual': o}))
             cases.append(c)
